@@ -470,7 +470,10 @@ def _run_world(chooser, use_cpool, nclients, maxc, nkeys, cancel_client, cancel_
             await hp.release(conn, reuse=not conn.closed())
 
     async def main():
-        pool = _mk_cpool(maxc) if use_cpool else HostPool(Conn, max_connections=maxc)
+        if use_cpool and st.get('max_count'):
+            pool = ConnectionPool(max_host_count=maxc, max_count=st['max_count'], resolver=_Resolver(), connection_factory=Conn, ssl_connection_factory=Conn)
+        else:
+            pool = _mk_cpool(maxc) if use_cpool else HostPool(Conn, max_connections=maxc)
         tasks = [asyncio.ensure_future((client_cp if use_cpool else client_hp)(pool, i)) for i in range(nclients)]
         if 0 <= cancel_client < nclients:
             st['cancel'] = (cancel_step, tasks[cancel_client])     # delivered by the scheduler stub at that step
@@ -607,6 +610,29 @@ def _schedule_host_bounded(p1, a1, p2, a2, nclients, maxc, cancel_client, cancel
     return st['bad'] is None
 
 
+def _schedule_cpool_capped(p1, a1, p2, a2, max_count, close_client):
+    """Three clients on two host keys (limit 1 per host) with a small GLOBAL limit: every check-in runs a forced clean while another
+    client may be waiting for that host."""
+    st = {'i': 0, 'bad': None}
+    p1 = pick(list(range(60)), p1)
+    a1 = pick([1, 2, 3], a1 - 1)
+    p2 = pick(list(range(61)), p2)
+    a2 = pick([1, 2, 3], a2 - 1)
+    st['max_count'] = pick([1, 2], max_count - 1)
+    close_client = pick([-1, 0, 1, 2], close_client + 1)
+
+    def chooser(n):
+        i = st['i']
+        st['i'] = i + 1
+        a = a1 if i == p1 else (a2 if i == p2 else 0)
+        return a if a < n else n - 1
+    with nosym():
+        _run_world(chooser, True, 3, 1, 2, -1, 0, close_client, st)
+    if st['bad'] is None:
+        hit('quiescent')
+    return st['bad'] is None
+
+
 def _fx(**kw):
     return {k: v for k, v in kw.items() if v is not None}
 
@@ -675,6 +701,14 @@ HARNESSES = [
       funcs=['wpull/network/pool.py:HostPool.acquire', 'wpull/network/pool.py:HostPool.release'],
       doc='three clients on one HostPool (limit 1-2), schedules within a preemption bound, one client cancelled at a symbolic step - in '
           'particular a waiter that has just been notified: the connection it would have taken goes to the next waiter (no lost wake-up)'),
+    H('schedules_cpool_capped', '_schedule_cpool_capped', 'p1: int, a1: int, p2: int, a2: int, max_count: int, close_client: int',
+      pre=['0 <= p1 <= 30 and 1 <= a1 <= 2 and p1 < p2 <= 60 and 1 <= a2 <= 2 and 1 <= max_count <= 2 and -1 <= close_client <= 2'],
+      parts=[{'tag': 'mc%d' % m, 'fix': {'max_count': str(m), 'p2': '60', 'a2': '1'}} for m in (1, 2)],
+      timeout={'quick': 250, 'thorough': 900}, path_timeout=30, samples=[(0, 1, 60, 1, 1, -1), (4, 2, 60, 1, 1, 0)], need=['quiescent'],
+      funcs=['wpull/network/pool.py:ConnectionPool.release', 'wpull/network/pool.py:ConnectionPool.clean', 'wpull/network/pool.py:ConnectionPool.acquire'],
+      doc='three clients over two host keys, per-host limit 1 and a GLOBAL limit of 1-2 connections (every check-in forces a clean), one '
+          'connection possibly closed while held, schedules within a preemption bound: no sharing, no over-allocation, no exception, '
+          'no leak, bookkeeping dropped at quiescence'),
     H('schedules_cpool', '_schedule_cpool',
       'p1: int, a1: int, p2: int, a2: int, nclients: int, maxc: int, nkeys: int, cancel_client: int, cancel_step: int, close_client: int',
       pre={'quick': ['0 <= p1 < 40 and 1 <= a1 <= 2 and p1 < p2 <= 60 and 1 <= a2 <= 2 and nclients == 2 and 1 <= maxc <= 2 and 1 <= nkeys <= 2',
